@@ -308,6 +308,10 @@ func (a *Box2) lineIntersect(l *Line2) *Line2 {
 	var pSet []v2.Vec
 	for _, t := range tSet {
 		p := u.Add(v.MulScalar(t))
+		if t == 1 {
+			// u + (l[1] - u) is not always l[1]: use the end point itself
+			p = l[1]
+		}
 		p = a.Snap(p, tolerance)
 		// is the point in the box?
 		if a.Contains(p) {
